@@ -17,7 +17,7 @@ CHECKS = {
    note='Trusted: Q as reported by bbpars.Qbb (cross-checked by C02); tolerance 3 keV; thresholds discovered on the model (affine) or by bisection on the port.'),
  'C04': dict(level='exploration', ref='DESIGN.md §2 C04', engine='dx',
    technique='bounded exhaustive deviate-choice exploration incl. extreme tails of every draw, well-formedness invariant and draw-horizon (livelock) detection',
-   text='All 69 background names and all accepted double-beta configurations (plus windows) are explored through decay0_generator with the tails 1e-12 / 1-1e-12 in the alphabet of every choice point (<=1 forced draw quick, <=2 thorough, plus edge coverage); every execution must end within 1e5 deviates under the fair default stream and yield a valid, time-ordered event with the requested label.',
+   text='All 69 background names and all accepted double-beta configurations (plus windows) are explored through decay0_generator with the tails 1e-12 / 1-1e-12 in the alphabet of every choice point (<=1 forced draw quick, <=2 thorough, plus edge coverage); every execution must end within 1e5 deviates under the fair default stream and yield a valid, time-ordered event with the requested label. The edge coverage is repeated under squeezed default streams (every unforced deviate mapped into a half, third or tenth of (0,1): loops that a fair stream leaves after a few turns keep turning; a horizon is judged only when the model terminates on the same deviates with every margin clear) and on working blocks re-initialised without a reset (same-mode chains, background names after a double-beta session).',
    note='Trusted: fairness of the counter-hash default stream; horizon 1e5 deviates; kinetic-energy bound 12 MeV.'),
  'C08': dict(level='exploration', ref='DESIGN.md §2 C08', engine='dx',
    technique='the bounded exhaustive explorations of C01-C04 re-run on an ASan+UBSan+_GLIBCXX_ASSERTIONS build, sanitizer reports as oracle',
@@ -33,35 +33,35 @@ CHECKS = {
    note='Trusted: reference machine written from the literal property text; merge of states justified by the reference state plus a sticky refused-operation mark; bounds 2 operations / 2 shots per history.'),
  'C07': dict(level='exploration', ref='DESIGN.md §2 C07', engine='c07',
    technique='exhaustive enumeration of prior-activity histories up to a depth (replayed on fresh objects), differential probe shots against the canonical history',
-   text='For all 69 background names and 20+ double-beta configurations (every isotope in the thorough tier), every history up to depth 3 (4 thorough) over 11 kinds of prior API activity (event reuse with exact capacities and with/without stale label and event time, reset/re-initialise, other instances alive or destroyed, rebuild) is followed by 9 probe shots with recorded deviate streams that must equal the canonical first-shot-of-a-fresh-generator event bit for bit; two predecessor-first histories per configuration in fresh processes (a sibling configuration runs first); collision histories: every ordered pair of beta-sampler calls of different decay schemes that agree in Q and differ elsewhere (from the model call trace), predecessor shot before every port shot of the successor, successor explored against the history-free model; working parameters compared after re-initialisation; one 1e4 (1e6 thorough) shot history per configuration.',
+   text='For all 69 background names and 20+ double-beta configurations (every isotope in the thorough tier), every history up to depth 3 (4 thorough) over 11 kinds of prior API activity (event reuse with exact capacities and with/without stale label and event time, reset/re-initialise, other instances alive or destroyed, rebuild) is followed by 9 probe shots with recorded deviate streams that must equal the canonical first-shot-of-a-fresh-generator event bit for bit; two predecessor-first histories per configuration in fresh processes (a sibling configuration runs first); collision histories: every ordered pair of beta-sampler calls of different decay schemes that agree in Q and differ elsewhere (from the model call trace), predecessor shot before every port shot of the successor, successor explored against the history-free model; working parameters compared after re-initialisation; probes include steered ones (each of the first 40 deviates in a tail, and pairs: candidate in a tail + acceptance deviate at 0); one 1e4 (1e6 thorough) shot history per configuration.',
    note='Trusted: bit-for-bit comparison; the long history is a single deterministic history, not exhaustive.'),
  'C11': dict(level='model_checking', ref='DESIGN.md §2 C11', engine='c11',
    technique='explicit-state enumeration of (stream, file partition, window, call pattern) against a list-slice reference model on real files; exhaustive value-alphabet round trip',
-   text='Every stream of N<=4 (7 thorough) events, every split over 1-3 files including empty files, every (start,max) in 0..N+1 plus max = INT_MAX, every has_next/load call pattern (with a fresh event object per load and with one shared object) is executed on a real event_reader; each answer is compared with the slice model events[start:start+max]. Round trip of ~10k (40k) enumerated events over all six particle species through the CLI record format to 15 digits.',
+   text='Every stream of N<=4 (7 thorough) events, every split over 1-3 files including empty files, every (start,max) in 0..N+1 plus max = INT_MAX, every has_next/load call pattern (with a fresh event object per load and with one shared object) is executed on a real event_reader; each answer is compared with the slice model events[start:start+max]. Streams of records with 1..3 and with 0..3 particles (a zero-particle record first, inner and last in a file). Round trip of ~10k (40k) enumerated events over all six particle species, every published nuclide name and labels of every length 1..40 through the CLI record format to 15 digits.',
    note='Trusted: the record layout copied from the driver; loads are only issued after a positive has_next_event.'),
  'C10': dict(level='exploration', ref='DESIGN.md §2 C10', engine='c10',
    technique='exhaustive enumeration of the finite product events x cone setups x entry points x deviate grid with geometric invariants; differential generator-level runs',
-   text='1.4M (quick) / ~6M (thorough) applications of the real operation over the full product of synthetic and generated events, cone axes, apertures, rectangular half-angle pairs, filters (incl. positrons), ranks, error flag and all five configuration entry points (every label of the label-based one must act like the corresponding species code), with both tails of the two cone deviates; every application is checked for count/species/time/|p| preservation, rigid proper rotation, cone or rectangular-window membership (frame built independently), untouched unselected particles, and the nothing-selected rules; generator-level runs compare the decay sample with and without the operation and require the result to be the plain decay followed by the operation applied directly with the next deviates.',
+   text='1.4M (quick) / ~6M (thorough) applications of the real operation over the full product of synthetic and generated events, cone axes, apertures, rectangular half-angle pairs, filters (incl. positrons), ranks, error flag and all five configuration entry points (every label of the label-based one must act like the corresponding species code), with both tails of the two cone deviates; every application is checked for count/species/time/|p| preservation, rigid proper rotation, cone or rectangular-window membership (frame built independently), untouched unselected particles, and the nothing-selected rules; generator-level runs compare the decay sample with and without the operation and require the result to be the plain decay followed by the operation(s) applied directly with the next deviates (one, two and three registered operations); scripted rejection runs on the rectangular window (K rejected candidates then an accepted one, K up to 4097).',
    note='Trusted: independent cone-frame construction (Rz(phi)Ry(theta)); tolerances stated in the evidence.'),
  'C16': dict(level='exploration', ref='DESIGN.md §2 C16', engine='c16',
    technique='exhaustive enumeration of monomial/degree/interval/panel grids against closed forms (exactness by linearity) with negative controls',
-   text='Each kernel is run on a complete finite grid whose oracle is a closed form or an independent evaluation: all monomials up to the guaranteed degree for the Gauss-Legendre panels and Simpson (steps that tile the interval and steps that do not; the first non-exact degree as negative control), integrand families with closed-form integrals for the adaptive quadrature at every requested tolerance, unimodal families for the golden section, polynomials on three table layouts and every table length from 2 nodes for divided differences, an angle grid for the Euler rotation and a (Z,E) grid for the Fermi function against an independent long-double Lanczos evaluation.',
+   text='Each kernel is run on a complete finite grid whose oracle is a closed form or an independent evaluation: all monomials up to the guaranteed degree for the Gauss-Legendre panels and Simpson (steps that tile the interval and steps that do not; the first non-exact degree as negative control), integrand families with closed-form integrals for the adaptive quadrature at every requested tolerance, unimodal families for the golden section (both entry points; the alternate one with its interior point centred, near the ends and at the golden ratios), polynomials on three table layouts and every table length from 2 nodes for divided differences, an angle grid for the Euler rotation and a (Z,E) grid for the Fermi function against an independent long-double Lanczos evaluation.',
    note='Trusted: closed forms; long double arithmetic of the reference evaluations.'),
  'C14': dict(level='exploration', ref='DESIGN.md §2 C14', engine='c14',
    technique='exhaustive enumeration of small synthetic datasets (all cell assignments over a value alphabet) x all table-boundary deviates, encoder-side tables as reference model',
-   text='Every assignment of a 4-value alphabet to the cells of the kinematic triangle (n=2,3; n=4 thorough) plus shaped larger tables, written with the repository\'s own encoder, is loaded by the real decoder and sampler; every c.d.f. line is compared with the encoder-side table, and both sampling methods are driven over every table boundary (exact and +-1e-9/1e-3), mid points and tails, checking domain, cell membership (for the rejection method: the accepted pair is the proposal of the accepted trial on the grid the file describes), monotonicity and the exported event (energy deviates scripted down to 1e-12); one object re-used across datasets must sample like a new one, and a dataset sampled after others in the same process like in a pristine process.',
+   text='Every assignment of a 4-value alphabet to the cells of the kinematic triangle (n=2,3; n=4 thorough) plus shaped larger tables, written with the repository\'s own encoder, is loaded by the real decoder and sampler; every c.d.f. line is compared with the encoder-side table, and both sampling methods are driven over every table boundary (exact and +-1e-9/1e-3), mid points and tails, checking domain, cell membership (for the rejection method: the accepted pair is the proposal of the accepted trial on the grid the file describes), monotonicity and the exported event (energy deviates scripted down to 1e-12); scripted rejection runs (K rejected trials then an accepted one, K up to 99990, must give the pair of the accepted trial and 3(K+1) deviates); one object re-used across datasets must sample like a new one, and a dataset sampled after others in the same process like in a pristine process.',
    note='Trusted: resources/data/dbd_gA/tools/mkocdfdata.py as the documented encoder (imported, not copied); datasets with emin+emax <= Qbb.'),
  'C05': dict(level='exploration', ref='DESIGN.md §2 C05', engine='c05',
    technique='complete enumeration of the finite catalogues (README, list files, dispatch literals) with set equality, plus deviation-bounded exhaustive differential runs name-through-generator vs own scheme function',
-   text='README appendix 1, the resource list files (parsed independently and through the library) and the dispatch literals of genbbsub.cc are enumerated completely and compared as sets per category (plus the mode table); every name of the union is initialised and shot, and ~30 names that are published nowhere and match no dispatch entry must be refused; for each of the 69 published background names the event obtained through decay0_generator is compared bit for bit (and in deviates consumed) with the nuclide\'s own scheme function plus exactly the documented daughter, for the default stream and every single forced deviate position over a 15-value grid.',
+   text='README appendix 1, the resource list files (parsed independently and through the library) and the dispatch literals of genbbsub.cc are enumerated completely and compared as sets per category (plus the mode table); every name of the union is initialised and shot, and ~30 names that are published nowhere and match no dispatch entry must be refused; for each of the 69 published background names the event obtained through decay0_generator is compared bit for bit (and in deviates consumed) with the nuclide\'s own scheme function plus exactly the documented daughter, for the default stream and every single forced deviate position over a 15-value grid; every published background name is also initialised and explored against the model on a working block that has just served a double-beta session (the set of accepted names must not depend on it).',
    note='Trusted: the name -> scheme-function table written from the README; double-beta schemes are bound by C02.'),
  'C12': dict(level='model_checking', ref='DESIGN.md §2 C12', engine='c12',
    technique='stateless exhaustive exploration of thread interleavings of the real code under a cooperative scheduler (preemption-bounded, state-hash pruned), plus a free-running ThreadSanitizer pass',
-   text='All schedules of 2-3 harness threads over the interposed synchronisation points of the real library (GSL handler save/disable/restore, quadrature entry/exit, mutex lock/unlock, every call of a libc function with hidden process-wide state such as strtok/rand/localtime) up to preemption bound 2 (quick) / 3-4 (thorough) are executed, each in a forked child: no abort, no deadlock, handler restored, sequential results; whole-generator harnesses compare each thread\'s events with its sequential events. A separate unserialised ThreadSanitizer run of 12 concurrent generators (and first-use groups) catches unsynchronised accesses, including unsynchronised callers of non-reentrant libc functions (mirrored on an instrumented proxy).',
+   text='All schedules of 2-3 harness threads over the interposed synchronisation points of the real library (GSL handler save/disable/restore, quadrature entry/exit, mutex lock/unlock, every call of a libc function with hidden process-wide state such as strtok/rand/localtime) up to preemption bound 2 (quick) / 3-4 (thorough) are executed, each in a forked child: no abort, no deadlock, handler restored, sequential results; whole-generator harnesses compare each thread\'s events with its sequential events. A separate unserialised ThreadSanitizer run of 23 concurrent generators (and first-use groups, incl. nine concurrent initialisations of the modes that run the nested quadratures) catches unsynchronised accesses, including unsynchronised callers of non-reentrant libc functions (mirrored on an instrumented proxy).',
    note='Trusted: preemption only at interposed points, sequential consistency; TSan for everything below; glibc/libstdc++ internals are not scheduled.'),
  'C13': dict(level='fault_enumeration', ref='DESIGN.md §2 C13', engine='c13',
    technique='exhaustive enumeration of every write()-level kill point and torn write of the CLI run (LD_PRELOAD shim) plus enumerated command lines compared byte for byte with an in-process API recomputation',
-   text='Every write()/writev() to the event and companion files of several command lines is numbered through an LD_PRELOAD shim and the run is repeated with the process killed before each write and with that write torn (1 byte, half): the completion marker may only be present if the event file equals the complete one, and what is left is a prefix. 150+ command lines (accepted and refused, one-sided windows, activity, MDL options all together and each alone, a refused run re-using the basename of a successful one) are run twice on the binary built from /repo and compared byte for byte with the library API driven in-process with the same seed.',
+   text='Every write()/writev() to the event and companion files of several command lines is numbered through an LD_PRELOAD shim and the run is repeated with the process killed before each write and with that write torn (1 byte, half): the completion marker may only be present if the event file equals the complete one, and what is left is a prefix. 150+ command lines (accepted and refused, one-sided windows, activity, MDL options all together and each alone, a refused run re-using the basename of a successful one) are run twice on the binary built from /repo and compared byte for byte with the library API driven in-process with the same seed (one shared engine behind an adaptor of the check; refusals decided by the reference acceptance rules of the model first, so that neither the engine wrapper of the library nor its own acceptance is trusted).',
    note='Trusted: process kill only (no reordering of completed writes, no ENOSPC); refusal rules from README/--help.'),
  'C17': dict(level='exploration', ref='DESIGN.md §2 C17', engine='c17',
    technique='exhaustive enumeration of a configuration grid on the unmodified Geant4 extension sources compiled against a minimal Geant4 stand-in; differential against the core API',
